@@ -650,14 +650,29 @@ func ruleBatchDelivery(c *Ctx, r *R) {
 		closedSeen := false
 		for _, g := range guardsOf(b) {
 			if v, val := g.boolVal(); !val {
-				if ex, ok := v.(*ssa.Extract); ok && ex.Index == 1 {
-					if sel, ok := ex.Tuple.(*ssa.Select); ok {
-						for _, st := range sel.States {
-							if st.Dir == types.RecvOnly && fieldOfChan(st.Chan) == "batchC" {
-								closedSeen = true
+				// the tested flag is the ok of a receive from batchC (in every select it can come from)
+				ls := valueLeaves(v, nil, 0)
+				all := len(ls) > 0
+				for _, lf := range ls {
+					isOK := false
+					if ex, ok := lf.v.(*ssa.Extract); ok && ex.Index == 1 {
+						if sel, ok := ex.Tuple.(*ssa.Select); ok {
+							for _, st := range sel.States {
+								if st.Dir == types.RecvOnly && fieldOfChan(st.Chan) == "batchC" {
+									isOK = true
+								}
 							}
 						}
 					}
+					if k, isK := lf.v.(*ssa.Const); isK && k.Value != nil && k.Value.String() == "false" {
+						isOK = true // the variable's initial value: never reaches the read without a receive
+					}
+					if !isOK {
+						all = false
+					}
+				}
+				if all {
+					closedSeen = true
 				}
 			}
 		}
@@ -686,8 +701,16 @@ func ruleBatchDelivery(c *Ctx, r *R) {
 			notOK := false
 			errNonNil, errNil := false, false
 			for _, g := range guardsOf(b) {
-				if v, val := g.boolVal(); v == okV && !val {
-					notOK = true
+				if v, val := g.boolVal(); !val {
+					if v == okV {
+						notOK = true
+					} else {
+						for _, lf := range valueLeaves(v, nil, 0) {
+							if lf.v == okV {
+								notOK = true // a flag both arms assign their ok to, tested in a shared tail
+							}
+						}
+					}
 				}
 				if cf, ok := g.asCmp(); ok && strings.HasSuffix(path(cf.x), ".err") && isNilConst(cf.y) {
 					if cf.op == token.NEQ {
@@ -736,7 +759,7 @@ func ruleBatchDelivery(c *Ctx, r *R) {
 					}
 				}
 			} else {
-				good = closedOK(nx, okV, a.body)
+				good = closedOK(nx, okV, a.body) || closedOK(nx, okV, nil)
 			}
 			r.ok(good, "stream.batchStream.Next|closed-block#"+itoa(nb), posOf(op.in), "when batchC is closed Next must return iter.err if it is non-nil and End only otherwise (both sibling blocks)")
 		}
